@@ -403,10 +403,26 @@ def run(scenario, world):
     objs[h0] = m
     refs[h0] = ref
     triples = []
+    states = set()
     prev = 'init'
     kind = ('reduced-' if ref.reduced else '') + ref.cls
     observe(m, ref, probe, world, -1, h0)
     n_exec = 0
+
+    def state_of(r):
+        # abstract configuration reached (no numeric values)
+        return '%s|%s|%s|reg=%s|out=%d%s|ren=%d|sens=%s|fix=%d' % (
+            kind, 'lib' if 'lib' in r.src else 'gen',
+            'none' if r.route is None else (
+                'direct' if r.route['direct'] else 'indirect'),
+            'none' if r.regimen is None else (
+                'protocol' if 'protocol' in r.regimen else (
+                    'periodic' if r.regimen.get('period') else 'single')),
+            len(r.outputs), 'r' if any(
+                k != v for k, v in r.out_names.items()) else '',
+            sum(1 for k, v in r.par_names.items() if k != v),
+            'off' if r.sens is None else (
+                'all' if r.sens == 'all' else 'subset'), len(r.fixed))
     for step, op in enumerate(scenario['ops']):
         h = op.get('on')
         if h not in objs:
@@ -484,7 +500,9 @@ def run(scenario, world):
         # every tracked object must still look like its own configuration
         for hh in sorted(objs):
             observe(objs[hh], refs[hh], probe, world, step, hh)
-    return {'triples': triples, 'n_exec': n_exec}
+            states.add(state_of(refs[hh]))
+    return {'triples': triples, 'n_exec': n_exec,
+            'extra': {'configurations_reached': sorted(states)}}
 
 
 # ---------------------------------------------------------------------------
